@@ -306,6 +306,32 @@ def check(prog, run):
     typedrule.run_rule(prog, run, "Y1", "sdl/**", "building a schema must fail only with the library's schema/SDL errors, never with "
                        "AttributeError", ["py_gql.sdl"], 40)
 
+    # ---- G1 per-target accumulation keeps every member
+    rg = run.rule("G1", "definitions and extensions are accumulated per target name without losing any: containers keyed by name are "
+                        "filled by append/extend (or setdefault(...).append) in document order; itertools.groupby — which only groups "
+                        "CONSECUTIVE items — is used only over an iterable sorted by the same key, and no dict is built from its groups "
+                        "(later runs of a key would overwrite earlier ones)", 1)
+    for f in prog.all_funcs():
+        if not f.module.name.startswith("py_gql.sdl"):
+            continue
+        for n in own_nodes(f.node):
+            if isinstance(n, ast.Call) and ((isinstance(n.func, ast.Attribute) and n.func.attr == "groupby") or (isinstance(n.func, ast.Name) and n.func.id == "groupby")):
+                src = n.args[0] if n.args else None
+                key = [k.value for k in n.keywords if k.arg == "key"] or (n.args[1:2])
+                sorted_same = isinstance(src, ast.Call) and isinstance(src.func, ast.Name) and src.func.id == "sorted" and key and \
+                    [ast.unparse(k.value) for k in src.keywords if k.arg == "key"] == [ast.unparse(key[0])]
+                rg.instance("%s: groupby over `%s` (sorted by the same key: %s)" % (f.qualname, ast.unparse(src) if src is not None else "?", bool(sorted_same)))
+                if not sorted_same:
+                    run.report(rg, "%s:%s:groupby-unsorted(%s)" % (f.module.name, f.qualname, ast.unparse(src) if src is not None else "?"), f.where(n),
+                               "itertools.groupby groups consecutive items only and its input `%s` is not sorted by the grouping key: extend "
+                               "blocks of one target separated by a block of another form several groups, and all but one are lost"
+                               % (ast.unparse(src) if src is not None else "?"))
+            # append-accumulation instances: d[key].append(x) / d.setdefault(key, []).append(x)
+            if isinstance(n, ast.Call) and isinstance(n.func, ast.Attribute) and n.func.attr in ("append", "extend") and \
+                    (isinstance(n.func.value, ast.Subscript) or (isinstance(n.func.value, ast.Call) and isinstance(n.func.value.func, ast.Attribute)
+                                                                  and n.func.value.func.attr == "setdefault")):
+                rg.instance("%s: %s" % (f.qualname, norm_stmt(n, 60)))
+
     # ---- X1 only library errors
     r = run.rule("X1", "may-raise (explicit raises through resolved calls) of build_schema / extend_schema contains only "
                        "library errors (GraphQLError family); no exception object is constructed without being raised", 2)
